@@ -135,7 +135,7 @@ theorem inv_assign {s : M} (hI : Inv s) (n : Nat) (hno : hasAddr s n = false) : 
         split at h
         · rename_i e
           simp only [Option.some.injEq] at h; subst h; subst e
-          exact ⟨{ x with ip := some b, terminating := false }, by simp, rfl⟩
+          exact ⟨{ x with ip := some b }, by simp, rfl⟩
         · rename_i e
           obtain ⟨y, hy, hip⟩ := hI.owned b n' h
           by_cases e2 : n' = n
@@ -299,6 +299,7 @@ theorem inv_step {s : M} (hI : Inv s) (op : Op) (hok : okOp s op) : Inv (step s 
   cases op with
   | create n mac => exact inv_create hI n mac
   | assign n => exact inv_assign hI n hok
+  | touch n => simp only [step]; split <;> exact hI
   | term n =>
     simp only [step]
     split
@@ -499,11 +500,12 @@ theorem KF_submgr_reassign_leak_witness :
   revert this; decide
 
 /-- KF-submgr-assign-race: an AssignAddress while the session's termination is parked at the allocator
-    clears the Terminating mark (a second TerminateSession is then accepted) and strands the new address. -/
+    strands the new address (the session is deleted when the termination finishes; the address stays handed out).
+    Since fix ac0cfa4 the termination mark is a flag of its own, so a second TerminateSession is still refused. -/
 theorem KF_submgr_assign_race_witness :
     let ops := [Op.create 1 1, .assign 1, .tbegin 0 1, .assign 1, .tresume 0]
     AMap.lookup (run init ops).sessions 1 = none ∧ AMap.lookup (run init ops).owner 3 = some 1 ∧
-    (step (run init [.create 1 1, .assign 1, .tbegin 0 1, .assign 1]) (.tbegin 1 1)).2 = .parked ∧
+    (step (run init [.create 1 1, .assign 1, .tbegin 0 1, .assign 1]) (.tbegin 1 1)).2 = .busy ∧
     ¬ Valid init ops := by
   refine ⟨by decide, by decide, by decide, ?_⟩
   intro h
